@@ -180,6 +180,15 @@ func (e *Exec) guard() *Term {
 	return e.curReachOrTrue()
 }
 
+// assumeAlways records a closed definitional fact even in specification mode.
+func (e *Exec) assumeAlways(t *Term) {
+	if t == True || t.flags&flagHasBound != 0 {
+		return
+	}
+	r := e.root()
+	r.globalAssumes = append(r.globalAssumes, t)
+}
+
 func (e *Exec) root() *Exec {
 	r := e
 	for r.inlineOf != nil {
@@ -221,8 +230,9 @@ func (e *Exec) oblige(kind, detail string, cond *Term, props []string, src strin
 	}
 	r := e.root()
 	goal := Implies(e.guard(), cond)
-	if goal == True {
-		// trivially discharged at construction; still counted
+	if cond == True && (kind == "post" || kind == "inv-preserved") && e.guard() != False {
+		// vacuity guard: a contract clause that folds to `true` while it is being built says nothing
+		r.notes = append(r.notes, fmt.Sprintf("VACUOUS? clause %s:%s of %s is syntactically true (%s)", kind, detail, FuncKey(r.Fn), src))
 	}
 	key := kind + ":" + detail
 	r.counters[key]++
@@ -396,7 +406,7 @@ func (e *Exec) assumeWF(v Val, t types.Type, st *State) {
 // heap (closed-heap assumption at entry); otherwise they are only known to be allocated by now.
 func (e *Exec) boundFor(comp string) *Term {
 	if comp != "" {
-		if srt, ok := allSorts[comp]; ok {
+		if srt, ok := allSorts.get(comp); ok {
 			r := e.root()
 			if r.entry != nil && e.curState.Get(comp, srt) == r.entry.Get(comp, srt) {
 				return r.entry.next
@@ -983,8 +993,8 @@ func (e *Exec) store(l *Loc, v Val) {
 			st.Set(name, Store(st.Get(name, ArraySort(SInt, tv.Sort)), l.Ref, tv))
 			return
 		}
-		name := cellComp(tv.Sort)
-		st.Set(name, Store(st.Get(name, ArraySort(SInt, tv.Sort)), l.Ref, tv))
+		name := cellComp(sortOf(l.Type)) // by the cell's type, not by the sort of the stored term
+		st.Set(name, Store(st.Get(name, ArraySort(SInt, sortOf(l.Type))), l.Ref, tv))
 	case LElem:
 		es := l.elemSort()
 		name := elemComp(es)
@@ -1279,12 +1289,13 @@ func (e *Exec) Card(set *Term) *Term {
 	k, _ := set.Sort.ArrayParts()
 	c := App(cardFn(k), SInt, set)
 	empty := ConstArr(set.Sort, False)
-	e.assume(And(Ge(c, IntLit(0)), Eq(Eq(c, IntLit(0)), Eq(set, empty))))
+	// definitional facts: also recorded while a contract is being evaluated
+	e.assumeAlways(And(Ge(c, IntLit(0)), Eq(Eq(c, IntLit(0)), Eq(set, empty))))
 	// unfold one level of store
 	if set.Op == "store" {
 		base, key, val := set.Args[0], set.Args[1], set.Args[2]
 		cb := e.Card(base)
-		e.assume(Eq(c, Ite(Eq(Select(base, key), val), cb, Ite(val, Add(cb, IntLit(1)), Sub(cb, IntLit(1))))))
+		e.assumeAlways(Eq(c, Ite(Eq(Select(base, key), val), cb, Ite(val, Add(cb, IntLit(1)), Sub(cb, IntLit(1))))))
 	}
 	return c
 }
@@ -1847,7 +1858,7 @@ func (e *Exec) checkReadonly() {
 	}
 	sort.Strings(ks)
 	for _, n := range ks {
-		srt := allSorts[n]
+		srt := allSorts.m()[n]
 		if !srt.IsArray() {
 			continue
 		}
